@@ -476,11 +476,42 @@ def guard_of(prog, fn, node: ast.AST) -> List[Tuple[ast.AST, bool]]:
     return out
 
 
-def guard_canon(prog, fn, node) -> List[str]:
+def guard_extra(prog, fn, node, allowed) -> List[str]:
+    """guard conjuncts of ``node`` that are not in ``allowed`` under either spelling (as written / with locals expanded)."""
+    out = []
+    for t, pol in guard_of(prog, fn, node):
+        for c, p in conjuncts(t, pol):
+            raw = canon(c, neg=not p)
+            alts = {raw}
+            try:
+                from .rules.common import deref_expr
+
+                full = deref_expr(prog, fn, c)
+                alts |= {canon(c2, neg=not p2) for c2, p2 in conjuncts(full, p)}
+            except Exception:
+                pass
+            if not (alts & set(allowed)):
+                out.append(raw)
+    return sorted(set(out))
+
+
+def guard_canon(prog, fn, node, deref: bool = True) -> List[str]:
+    """canonical conjuncts that hold whenever ``node`` executes.  With ``deref`` each conjunct is also given with its
+    locals expanded through their unique definitions (``lvl = OS[k]; if lvl > 0`` yields both ``(0 < lvl)`` and
+    ``(0 < OS[k])``), so that rules matching state keys are not tied to the spelling with or without a temporary."""
     out = []
     for t, pol in guard_of(prog, fn, node):
         for c, p in conjuncts(t, pol):
             out.append(canon(c, neg=not p))
+            if deref and any(isinstance(n, ast.Name) for n in ast.walk(c)):
+                try:
+                    from .rules.common import deref_expr
+
+                    full = deref_expr(prog, fn, c)
+                    for c2, p2 in conjuncts(full, p):
+                        out.append(canon(c2, neg=not p2))
+                except Exception:
+                    pass
     return sorted(set(out))
 
 
